@@ -1,5 +1,6 @@
 """Per-property plans: which bounded models TLC explores, which drivers record the real code,
 and which of TLC's verdicts count for the property (verdict ownership, DESIGN.md section 5)."""
+import shutil, re
 import json, os, re, time
 import pv, stages, gen
 from stages import F, mc_stage, run_events, random_program_cases, random_instr_cases
@@ -960,6 +961,16 @@ def run_c14(ctx):
             ctx.stats["states"] += st["states"]; ctx.stats["transitions"] += st["transitions"]
         if ok != expect_ok or (not expect_ok and "Invariant UniqueIds is violated" not in r.stdout):
             raise pv.ToolError("PushConc with Atomic=%s did not behave as expected:\n%s" % (atomic, r.stdout[-2000:]))
+    # (A') the same statement for ANY number of threads and nodes: TLAPS proof of the inductive invariant
+    pdir = os.path.join(ctx.work, "tlaps")
+    os.makedirs(pdir, exist_ok=True)
+    for f in ("PushConc.tla", "PushConcProof.tla"):
+        shutil.copy(os.path.join(pv.SPEC, f), pdir)
+    r = pv.run(["timeout", "900", "tlapm", "--threads", "8", "--cleanfp", "PushConcProof.tla"], cwd=pdir)
+    m = re.search(r"All (\d+) obligations? proved", r.stdout)
+    if not m:
+        raise pv.ToolError("tlapm did not prove PushConcProof.tla:\n" + r.stdout[-2000:])
+    ctx.stats["tlc_runs"].append(dict(tag="TLAPS PushConcProof (UniqueIds for any T, K; atomic protocol)", obligations_proved=int(m.group(1))))
     # (C1) determinism: the same programs alone, beside 15 other threads, in other orders, in the optimised build
     reg = [n for n in RANDFREE(ctx.registry) if n != "GRAPH.NODE*ADD"]
     g = gen.Gen(ctx.seed + 121, reg)
